@@ -73,12 +73,17 @@ func main() {
 	case "programs":
 		for i := *first; i < *first+*count; i++ {
 			p := idlgen.GenProgram(i, idlgen.Allow{OptionalByteNoDefault: *allowOB}).Example(int(*seed)*100003 + i)
-			info := idlgen.ProgramInfo{ID: i, Root: p.Files[0].Name, WithoutTrace: p.WithoutTrace, AddServant: p.AddServant, Imports: map[string]string{}, Schema: p.Schema(), Shape: map[string]int{}}
+			info := idlgen.ProgramInfo{ID: i, Root: p.Files[0].Name, WithoutTrace: p.WithoutTrace, AddServant: p.AddServant, JsonOmitEmpty: p.JsonOmitEmpty, DispatchReporter: p.DispatchReporter, ModuleUpper: p.ModuleUpper,
+				Imports: map[string]string{}, Schema: p.Schema(), Shape: map[string]int{}}
 			for _, f := range p.Files {
 				info.Files = append(info.Files, f.Name)
 				write(filepath.Join(*out, "idl", f.Name), f.Render())
 				for _, m := range f.Modules {
-					info.Imports[m.Name] = fmt.Sprintf("verif/harness/gen/p%d/%s", i, m.Name)
+					dir := m.Name
+					if p.ModuleUpper {
+						dir = rc.UpperFirst(dir)
+					}
+					info.Imports[m.Name] = fmt.Sprintf("verif/harness/gen/p%d/%s", i, dir)
 				}
 			}
 			info.Shape = idlgen.ShapeOf(info.Schema)
